@@ -44,7 +44,7 @@ def plan(tier):
 
 
 def ncases(tier):
-    return 450 if tier == "quick" else 7000
+    return 1200 if tier == "quick" else 7000
 
 
 def gen_case(rng, i):
